@@ -7,6 +7,12 @@
 //!   `mt <kind> <producers> <flushes> <tok>…`  kind `w` (WorkerSink) | `m` (MutexSink); toks `s<p>=<input>`:
 //!        producer thread p merges the inputs carrying its number, in order; a flusher thread issues the flushes
 //!
+//!   `gated <tok>…`  WorkerSink around an inner sink whose `flush` waits at a gate the harness controls, so
+//!        that several flush requests are in flight at once deterministically (`A<h>` start a request and
+//!        leave it in flight, `P` watch the requests in flight, `G0`/`G1` close/open the gate); compared
+//!        with the model like the other pipelines; a request observed complete must find everything sent
+//!        before it already emitted
+//!
 //! Implementation-vs-property oracle (independent of Lean; written from the property statement):
 //! the inputs are grouped per flush epoch and per key with `BTreeMap`s; every epoch must have emitted
 //! exactly one aggregate per distinct key whose sum fields are the sums, whose keep-last field is the
@@ -2096,8 +2102,18 @@ fn main() {
                         pick
                     } else {
                         // thread timing can matter when the gate is open: a reduction must fail three times in a row
-                        let reps = if c.pipeline() == "gated" { 3 } else { 1 };
-                        shrink_case(c, |cc| (0..reps).all(|_| oracle(cc, &run_impl(cc)).is_some()))
+                        if c.pipeline() == "gated" {
+                            // the gate makes the interleaving deterministic: first shrink with the gate
+                            // operations pinned, then drop gate operations only if the requests still
+                            // overlap behind the closed gate and the failure stays (ten runs in a row)
+                            let gates = |x: &Case| x.toks.iter().filter(|t| t.tag == 'G').count();
+                            let g0 = gates(c);
+                            let s1 = shrink_case(c, |cc| gates(cc) == g0 && (0..2).all(|_| oracle(cc, &run_impl(cc)).is_some()));
+                            let need = max_overlap(&s1).min(2);
+                            shrink_case(&s1, |cc| max_overlap(cc) >= need && (0..10).all(|_| oracle(cc, &run_impl(cc)).is_some()))
+                        } else {
+                            shrink_case(c, |cc| oracle(cc, &run_impl(cc)).is_some())
+                        }
                     };
                     let mut small = small;
                     let mut r2 = run_impl(&small);
